@@ -556,6 +556,39 @@ func runProgram(sc *Scenario, e *env, out map[string]interface{}) {
 			g.plan.active.Store(true)
 		}
 	}
+	relFaults := false
+	for _, f := range sc.Faults {
+		if strings.HasPrefix(f.Kind, "release:") {
+			relFaults = true
+		}
+	}
+	if relFaults {
+		// C06: the n-th RELEASE request of client c1 (counted among release requests only) or its response is lost once
+		_ = e.store("c1")
+		if g := e.gates["c1"]; g != nil {
+			g.plan.filter = func(req *tikvrpc.Request) bool {
+				return req.Type == tikvrpc.CmdPessimisticRollback || req.Type == tikvrpc.CmdBatchRollback || req.Type == tikvrpc.CmdResolveLock
+			}
+			for _, f := range sc.Faults {
+				if k := strings.TrimPrefix(f.Kind, "release:"); k != f.Kind && (k == "dropreq" || k == "dropresp") {
+					g.plan.faults[f.At] = k
+				}
+			}
+			g.plan.active.Store(true)
+		}
+	}
+	if sc.BlackFrom >= 0 && strings.HasPrefix(sc.BlackKind, "release_") {
+		// C06: from the n-th RELEASE request (PessimisticRollback / BatchRollback / ResolveLock) of client c1 on, every such
+		// request (release_req) or its response (release_resp) is lost for good; other requests are not counted
+		_ = e.store("c1")
+		if g := e.gates["c1"]; g != nil {
+			g.plan.filter = func(req *tikvrpc.Request) bool {
+				return req.Type == tikvrpc.CmdPessimisticRollback || req.Type == tikvrpc.CmdBatchRollback || req.Type == tikvrpc.CmdResolveLock
+			}
+			g.plan.from["blackhole_"+strings.TrimPrefix(sc.BlackKind, "release_")] = sc.BlackFrom
+			g.plan.active.Store(true)
+		}
+	}
 	if len(sc.Extras) > 0 {
 		// C01: at the n-th request of client c1 another client reads every key at a fresh timestamp (meets the locks
 		// written so far, pushes min-commit timestamps) before the request is delivered
@@ -1013,6 +1046,7 @@ func runProgram(sc *Scenario, e *env, out map[string]interface{}) {
 func runScenario(sc *Scenario) map[string]interface{} {
 	out := map[string]interface{}{"id": sc.ID}
 	_ = failpoint.Disable("tikvclient/beforeAsyncPessimisticRollback") // C06: never inherit a schedule failpoint from an earlier scenario
+	_ = failpoint.Disable("tikvclient/injectLiveness")
 	if sc.ManagedTTL > 0 {
 		atomic.StoreUint64(&transaction.ManagedLockTTL, sc.ManagedTTL)
 	} else {
